@@ -161,6 +161,48 @@ impl Analyzable for Statement
 {
 	fn analyze(self, analyzer: &mut Analyzer) -> Self
 	{
+		#[cfg(feature = "penne_verif")]
+		if crate::verif_trace::is_on()
+		{
+			let (kind, line) = match &self
+			{
+				Statement::Declaration { location, .. } =>
+				{
+					("var", location.line_number)
+				}
+				Statement::Assignment { location, .. } =>
+				{
+					("set", location.line_number)
+				}
+				Statement::MethodCall { name, .. } =>
+				{
+					("call", name.location.line_number)
+				}
+				Statement::Loop { location } => ("loop", location.line_number),
+				Statement::Goto { location, .. } =>
+				{
+					("goto", location.line_number)
+				}
+				Statement::Label { location, .. } =>
+				{
+					("label", location.line_number)
+				}
+				Statement::If { location, .. } => ("if", location.line_number),
+				Statement::Block(block) =>
+				{
+					("block", block.location.line_number)
+				}
+				Statement::Poison(_) => ("poison", 0),
+			};
+			crate::verif_trace::emit(format!(
+				"{{\"ev\":\"visit\",\"line\":{},\"kind\":\"{}\",\"nt\":{},\"ne\":{},\"ib\":{}}}",
+				line,
+				kind,
+				analyzer.is_naked_then_branch,
+				analyzer.is_naked_else_branch,
+				analyzer.is_in_block,
+			));
+		}
 		if analyzer.is_naked_then_branch || analyzer.is_naked_else_branch
 		{
 			match &self
